@@ -57,16 +57,25 @@ def slice_(
 
     pipeline: list[Any] = []
 
-    if _stop >= 0:
-        pipeline.append(ops.take(_stop))
-
-    if _start > 0:
-        pipeline.append(ops.skip(_start))
-    elif _start < 0:
+    if _start < 0 < _stop and stop is not None:
+        # The start is relative to the end but the stop is relative to the
+        # beginning: which elements qualify is only known once the source has
+        # completed, so carry each element's index along.
+        pipeline.append(ops.map_indexed(lambda x, i: (x, i)))
         pipeline.append(ops.take_last(-_start))
+        pipeline.append(ops.take_while(lambda xi: xi[1] < _stop))
+        pipeline.append(ops.map(lambda xi: xi[0]))
+    else:
+        if _stop >= 0:
+            pipeline.append(ops.take(_stop))
 
-    if _stop < 0:
-        pipeline.append(ops.skip_last(-_stop))
+        if _start > 0:
+            pipeline.append(ops.skip(_start))
+        elif _start < 0:
+            pipeline.append(ops.take_last(-_start))
+
+        if _stop < 0:
+            pipeline.append(ops.skip_last(-_stop))
 
     if _step > 1:
         pipeline.append(ops.filter_indexed(lambda x, i: i % _step == 0))
